@@ -29,6 +29,7 @@ func runC02(p *core.Program, r *core.Report) {
 	c02R2R3(p, r, pl)
 	c02R4(p, r, pl)
 	c02R5(p, r, pl)
+	c02R6(p, r, pl)
 }
 
 // errBranch describes `err != nil` style tests of an error variable.
@@ -1128,4 +1129,52 @@ func isFileWriterUnit(p *core.Program, f *core.Func) bool {
 		}
 	}
 	return false
+}
+
+// c02R6: a panic while generating (an unbound template argument, a nil dereference in a generator) is a failed
+// generation. A recover() on the generation path turns it into a normal return: unless the recovered value is stored
+// as the error in a *named result* of the function whose deferred closure recovers, that function returns its zero
+// results - nil - and the run goes on to write files and gengo.sum as if the type had been generated.
+func c02R6(p *core.Program, r *core.Report, pl *pipeline) {
+	const rule = "R6"
+	r.Floor(rule, 1)
+	n := 0
+	seen := map[*ast.CallExpr]bool{}
+	for _, f := range pipelineFuncs(p, pl) {
+		if f.Body == nil {
+			continue
+		}
+		info := f.Info()
+		for _, c := range core.Calls(f.Body, true) {
+			if core.CalleeName(info, c) != "builtin.recover" || seen[c] {
+				continue
+			}
+			seen[c] = true
+			n++
+			root := f.Root()
+			stores := false
+			ast.Inspect(f.Body, func(m ast.Node) bool {
+				as, ok := m.(*ast.AssignStmt)
+				if !ok || as.Tok == token.DEFINE {
+					return true
+				}
+				for i, l := range as.Lhs {
+					v := core.VarOf(info, l)
+					if v == nil || !isErrorType(v.Type()) || !isNamedResult(root, v) || i >= len(as.Rhs) {
+						continue
+					}
+					if id, isNil := ast.Unparen(as.Rhs[i]).(*ast.Ident); isNil && id.Name == "nil" {
+						continue
+					}
+					stores = true
+				}
+				return true
+			})
+			r.Check(f.Lit != nil && stores, rule, f, "a recovered panic becomes the function's error", c.Pos(), "the recovering closure assigns a non-nil error to a named result of "+root.QName(),
+				"recover() on the generation path without storing an error in a named result of "+root.QName()+": after a panic inside a generator the function returns nil, Execute reports success, and files and gengo.sum are written for a type that was never rendered")
+		}
+	}
+	if n == 0 {
+		r.OK(rule, nil, "no recover() on the generation path", token.NoPos, "a panic of a generator ends the run")
+	}
 }
